@@ -539,10 +539,50 @@ def m_ref_binop(ctx):
     if a.ty is None:
         a.ty = strip_ref(self_ty) if self_ty and self_ty.startswith("&") else self_ty
     name = _REF_OPS[meth]
-    if name in ("Add", "Sub", "Mul", "Shl", "Shr", "Div", "Rem"):
-        # operator traits on primitives panic on overflow depending on the *callee's* (core's) build; the
-        # crate never calls those through references -- refuse rather than guess
+    if name in ("Div", "Rem"):
         raise Unsupported("operator trait %s through reference" % meth)
+    if name in ("Add", "Sub", "Mul", "Shl", "Shr"):
+        # core's operator impls on primitives carry #[rustc_inherit_overflow_checks]: they panic on overflow exactly when
+        # the calling crate is built with overflow checks (dev profile) and wrap otherwise (release profile)
+        k = scalar_kind(a.ty)
+        if k is None or k[0] != "bv":
+            raise Unsupported("operator trait %s on %r" % (meth, a.ty))
+        w, signed = k[1], k[2]
+        ta = eng.scalar(a, a.ty)
+        tb = eng.scalar(b, b.ty or a.ty)
+        if name in ("Shl", "Shr"):
+            wb = tb.size()
+            big = max(w, wb)
+            tbx = z3.ZeroExt(big - wb, tb) if wb < big else tb
+            ovf = z3.UGE(tbx, z3.BitVecVal(w, big))
+            amt = z3.Extract(w - 1, 0, tbx) if big > w else tbx
+            amt = amt & z3.BitVecVal(w - 1, w)
+            res = (ta << amt) if name == "Shl" else ((ta >> amt) if signed else z3.LShR(ta, amt))
+            msg = "attempt to shift %s with overflow" % ("left" if name == "Shl" else "right")
+        else:
+            if tb.size() != w:
+                raise Unsupported("operator trait %s with operands of different widths" % meth)
+            if name == "Add":
+                res = ta + tb
+                ovf = z3.Not(z3.And(z3.BVAddNoOverflow(ta, tb, signed), z3.BVAddNoUnderflow(ta, tb) if signed else z3.BoolVal(True)))
+                msg = "attempt to add with overflow"
+            elif name == "Sub":
+                res = ta - tb
+                ovf = z3.Not(z3.And(z3.BVSubNoUnderflow(ta, tb, signed), z3.BVSubNoOverflow(ta, tb) if signed else z3.BoolVal(True)))
+                msg = "attempt to subtract with overflow"
+            else:
+                res = ta * tb
+                ovf = z3.Not(z3.And(z3.BVMulNoOverflow(ta, tb, signed), z3.BVMulNoUnderflow(ta, tb) if signed else z3.BoolVal(True)))
+                msg = "attempt to multiply with overflow"
+        if eng.profile != "dev":
+            return ctx.ret(mk_scalar(res, a.ty))
+
+        def bad(c2):
+            c2.panic(msg)
+
+        def good(c2):
+            return c2.ret(mk_scalar(res, a.ty))
+        return ctx.fork([(ovf, bad), (z3.Not(ovf), good)])
     return ctx.ret(eng.binop(name, a, b))
 
 
@@ -899,7 +939,7 @@ def install(eng):
         M[p] = m_panic
     M["<StdRng as Rng>::gen_range"] = m_gen_range
     R = eng.model_rx
-    R.append((re.compile(r"<&?(?:i|u)(?:8|16|32|64|128|size) as (?:BitAnd|BitOr|BitXor)>::(?:bitand|bitor|bitxor)"),
+    R.append((re.compile(r"<&?(?:i|u)(?:8|16|32|64|128|size) as (?:BitAnd|BitOr|BitXor|Add|Sub|Mul|Shl|Shr)>::(?:bitand|bitor|bitxor|add|sub|mul|shl|shr)"),
               m_ref_binop))
     R.append((re.compile(r"core::num::<impl [iu](?:8|16|32|64|128|size)>::(?:wrapping|checked|overflowing|saturating)_\w+"), m_int_method))
     R.append((re.compile(r"core::num::<impl [iu](?:8|16|32|64|128|size)>::(?:unsigned_abs|abs)"), m_int_method))
